@@ -29,6 +29,7 @@ type Group struct {
 type Block struct {
 	Header string
 	Sub    []string
+	Fresh  bool // created by a mode command of the script being executed
 }
 
 type Device struct {
@@ -71,7 +72,7 @@ func (d *Device) Clone() *Device {
 	}
 	n.Lines = append(n.Lines, d.Lines...)
 	for _, b := range d.Blocks {
-		c := &Block{Header: b.Header, Sub: append([]string{}, b.Sub...)}
+		c := &Block{Header: b.Header, Sub: append([]string{}, b.Sub...), Fresh: b.Fresh}
 		n.Blocks = append(n.Blocks, c)
 		if d.modeBlock == b {
 			n.modeBlock = c
